@@ -2,7 +2,7 @@
 (* every abstract array of <= 2 elements over a small element universe, at every nesting depth, in every layout
    with 0..MaxOff foreign elements before and 0..1 after the window, with and without a validity bitmap *)
 EXTENDS ArrowBuf, TLC
-CONSTANTS MaxOff
+CONSTANTS MaxOff, LongPre
 VARIABLES K, A, pre, post, bm
 
 U1 == {NullEl, Val(<<>>), Val(<<1, 2>>), Val(<<3, 4, 5, 6>>)}
@@ -13,7 +13,11 @@ U(k) == IF k = 1 THEN U1 ELSE IF k = 2 THEN U2 ELSE U3
 Seqs(S, n) == UNION {[1..m -> S] : m \in 0..n}
 
 Init == /\ K \in 1..3
-        /\ A \in Seqs(U(K), 2) /\ pre \in Seqs(U(K), MaxOff) /\ post \in Seqs(U(K), 1)
+        /\ A \in Seqs(U(K), 2)
+        (* foreign elements before the window: every short sequence, and long runs (alternating missing / present) so that the
+           window straddles a byte boundary of the validity bitmap *)
+        /\ pre \in Seqs(U(K), MaxOff) \cup {[i \in 1..k |-> IF i % 3 = 0 THEN NullEl ELSE Val(<<>>)] : k \in LongPre}
+        /\ post \in Seqs(U(K), 1)
         /\ bm \in BOOLEAN
 Next == UNCHANGED <<K, A, pre, post, bm>>
 AccessorsExact == AccessorsExactFor(Layout(pre, A, post, K, bm), A, K)
